@@ -598,6 +598,22 @@ try:
         raised = True
     if not raised and not os.path.exists(os.path.join(root, "t2", man)):
         bad.append("unreadable marker -> fallback target data/<basename> -> in-flight manifest deleted")
+    # (iii) the age of a marker cannot be determined (stat fails): it must keep protecting, not count as abandoned
+    t = fresh_table(root, "t3")
+    tx = t.new_transaction().begin(); tx.append_data([{"a": 3}])
+    f = tx._written_files[0]
+    for d, _s, fs in os.walk(os.path.join(root, "t3")):
+        for x in fs: os.utime(os.path.join(d, x), (old, old))
+    markers = [m for m in t.storage.list_files("metadata/inflight")]
+    faulty.install(t, [{"op": "get_modified_time", "match": "metadata/inflight/", "raise": OSError("stat failed")}])
+    try:
+        t.garbage_collect(grace_period_ms=3600_000); raised = False
+    except Exception:
+        raised = True
+    if not raised and not os.path.exists(os.path.join(root, "t3", f)):
+        bad.append("marker whose age cannot be read was treated as abandoned -> the open transaction's data file was deleted")
+    if not raised and markers and not all(os.path.exists(os.path.join(root, "t3", m)) for m in markers):
+        bad.append("marker whose age cannot be read was swept")
 finally:
     shutil.rmtree(root, ignore_errors=True)
 print("replay markers ->", bad or "ok")
